@@ -1,6 +1,6 @@
 #!/usr/bin/env python3
 import sys, json
-sys.path.insert(0,'/verif')
+sys.path.insert(0, __import__('os').path.dirname(__import__('os').path.abspath(__file__)))
 from vf.unitrun import run_unit
 unit=sys.argv[1]
 r=run_unit(unit, max_rounds=1 if "--no-drop" in sys.argv else 4)
